@@ -21,7 +21,7 @@ for p in sorted(os.listdir(d)):
     try:
         fired = []
         for c in claimed:
-            rr = sh(os.path.join(VERIF, "check"), c, cwd=VERIF)
+            rr = sh(os.path.join(VERIF, "check"), c, "--no-evidence", cwd=VERIF)
             if rr.returncode != 0:
                 fired.append((c, [l for l in rr.stdout.splitlines() if l.startswith("  at") or "rror" in l][:2]))
         print(p, "->", "silent" if not fired else "FALSE ALARMS %s" % fired)
